@@ -196,7 +196,52 @@ def native_replay(env):
     return {'confirmed': bool(bad), 'detail': '; '.join(bad[:8]) if bad else 'native deep-copy comparison: no argument modified'}
 
 
+def bounded_plot_index_forms(chk):
+    """BOUNDED native stand-in: the pandas model of the deductive part has positional rows only (a default RangeIndex); tables
+    whose index is something else (a hold-out slice, a filtered table, repeated labels, string labels) are drawn natively and the
+    'Real' / 'Synthetic' traces compared with the two tables, row multiset by row multiset."""
+    import numpy as np
+    import pandas as pd
+    import warnings
+    warnings.simplefilter('ignore')
+    from copulas import visualization as viz
+    rs = np.random.RandomState(9 + (chk.seed or 0))
+    df = pd.DataFrame(rs.normal(size=(90, 3)), columns=['a', 'b', 'c'])
+    other = pd.DataFrame(rs.normal(size=(40, 3)) + 5.0, columns=['a', 'b', 'c'])
+    forms = {'hold-out slice (index 50..89)': df.iloc[50:], 'filtered rows': df[df['a'] > 0],
+             'repeated labels': pd.concat([df.iloc[:20], df.iloc[:20] + 0.5]),
+             'string labels': df.iloc[:30].set_axis(['r%d' % i for i in range(30)]), 'default index': df.iloc[:45]}
+    ncase = 0
+    for fname, real in forms.items():
+        for name, cols in (('compare_2d', ['a', 'b']), ('compare_3d', ['a', 'b', 'c'])):
+            ncase += 1
+            r0, s0 = real.copy(deep=True), other.copy(deep=True)
+            try:
+                fig = getattr(viz, name)(real, other, columns=cols)
+                got = {}
+                for t in fig.data:
+                    pts = np.column_stack([np.asarray(getattr(t, ax), dtype=float) for ax in 'xyz'[:len(cols)]])
+                    got[t.name] = sorted(map(tuple, np.round(pts, 12).tolist()))
+                want = {'Real': sorted(map(tuple, np.round(real[cols].to_numpy(), 12).tolist())),
+                        'Synthetic': sorted(map(tuple, np.round(other[cols].to_numpy(), 12).tolist()))}
+                ok = got == want and real.equals(r0) and other.equals(s0)
+                detail = 'traces %r for %d real and %d synthetic rows' % ({k: len(v) for k, v in got.items()}, len(real), len(other)) \
+                    if {k: len(v) for k, v in got.items()} != {k: len(v) for k, v in want.items()} else \
+                    'rows drawn under the wrong label' if got != want else 'an argument was modified'
+            except Exception as e:      # noqa
+                ok, detail = False, '%s: %s' % (type(e).__name__, str(e)[:80])
+            if not ok:
+                chk.bounded_violation('C20.%s.index_forms.bounded' % name, {'real': fname, 'columns': cols},
+                                      '%s(real, synthetic) with real = %s: %s' % (name, fname, detail))
+    chk.bounded.append({'name': 'C20.compare.index_forms.bounded', 'clause': 'every real row is drawn under "Real" and every '
+                        'synthetic row under "Synthetic", whatever the row labels of the two tables; arguments unchanged',
+                        'bound': '5 index forms of the real table (hold-out slice, filtered, repeated labels, string labels, default) '
+                                 'x compare_2d / compare_3d', 'evaluations': ncase, 'distinct_nontrivial': ncase,
+                        'rule': 'one case = (index form, function)'})
+
+
 def build(chk):
+    bounded_plot_index_forms(chk)
     I0 = engine.new_interp()
     src = I0.source
     entries = []
